@@ -12,7 +12,7 @@ base = subprocess.run(["git", "-C", w, "rev-parse", "--short", "HEAD"], capture_
 json.dump({"id": sid, "breaks_property": prop, "needs_to_manifest": needs, "base_commit": base,
            "author": "independent sub-agent given only the property text and a scratch worktree",
            "confirmed_by_me": "tools/verify_seed.sh: demo exits 0 on the clean worktree and non-zero with the patch; "
-                              "pytest -n 8 tests with the patch: 161 passed (+ the pre-existing always-failing test_axes_to_rotator_invert where the base predates its fix)",
+                              "pytest -n 8 tests with the patch: same result as the clean base commit (162 passed once the axes_to_rotator fix was in; 161 passed + the always-failing test_axes_to_rotator_invert before)",
            "check_run": f"tools/try_seed.sh seeded/{sid}/patch.diff {prop}", "check_result": result,
            "caught_by": caught, "agent_notes": notes}, open(dst / "meta.json", "w"), indent=1)
 print("kept", dst)
